@@ -30,6 +30,7 @@ RULE = ('random programs of 1-6 chained public operations (copy, slice, apply,'
         'evaluations = operation returns/raises monitored; a step '
         'is non-trivial when the operation returned a file with >= 1 variable;'
         ' distinct = digest of (operation description, input file digest).')
+RULE += (" After a program on a receiver opened from disk the source is closed: every file obtained from it must still be well-formed. Reader receivers are also opened with the readers' rarely used keywords (bpch timeslice / noscale / nogroup, ARL cache).")
 ASSUMPTIONS = [
     'in-domain = arguments generated from the file at hand: existing '
     'dimensions/variables, in-range indices, conforming operands, numeric '
